@@ -1460,6 +1460,17 @@ def one_spelling_per_path(ctx: Ctx, rule: str) -> int:
         accepted = {s: v for s, v in seen.items() if v != "<refused>"}
         if len(set(accepted.values())) > 1:
             bad.append("spellings of one path give different paths: " + ", ".join(f"create({s!r}) = {v!r}" for s, v in accepted.items()))
+    # the path without any segment ('/') is a prefix of every path and a location in no store: it is refused when the path is made
+    for s0 in ["/", "//", pathlib.Path("/")]:
+        try:
+            outs0 = Evaluator(prog).run(f, [Const(s0)])
+        except Exception as e:
+            und.append(f"create({s0!r}): {type(e).__name__}: {e}")
+            continue
+        if any(o.kind != "raise" for o in outs0):
+            got0 = [getattr(o.value, "v", o.value) for o in outs0 if o.kind == "return"]
+            bad.append(f"create({s0!r}) gives the path {got0} that has no segment: it overlaps every other path of an evaluation and is reported by no check before the user functions run "
+                       "(the local store refuses it at the commit, after everything ran)")
     desc = "DDSPathUtils.create gives one path per sequence of non-empty segments (empty segments are dropped or refused; a pathlib.Path names the path of its text)"
     if bad:
         rep.bad(rule, f.qname, desc, f.loc(), bad + ["the local and DBFS stores place a path by its non-empty segments, the memory store by its text: keep('/a/b', f); "
